@@ -69,12 +69,15 @@ class Callback:
         return tuple(getattr(self, i, None) for i in fields)
 
     def __enter__(self):
-        self._cm = add_callbacks(self)
-        self._cm.__enter__()
+        # One context per ``with``: the same callback can be entered again
+        # while it is active, and every exit must undo its own enter
+        cm = add_callbacks(self)
+        self.__dict__.setdefault("_cms", []).append(cm)
+        cm.__enter__()
         return self
 
     def __exit__(self, *args):
-        self._cm.__exit__(*args)
+        self._cms.pop().__exit__(*args)
 
     def register(self) -> None:
         Callback.active.add(self._callback)
